@@ -96,18 +96,33 @@ Theorem duration_equiv_wrap_refuted :
 Proof. exists (bs "9223372036854775808ns9223372036854775808ns"). vm_compute. repeat split; reflexivity. Qed.
 Print Assumptions duration_equiv_wrap_refuted.
 
-(* Partial: for every string without the bytes d, M, y — added hypotheses: (1) no '.' in the string (the fraction path
-   evaluates the same binary64 expression in both parsers unless the first 19 fraction digits are 9223372036854775808; it
-   is compared on the implementations in the correspondence run); (2) the admission of the magnitude 1<<63 plays no role
-   in the standard parser's run (lowering the admitted magnitude to 1<<63 - 1 leaves its answer unchanged) —
+(* Partial: for EVERY string without the bytes d, M, y (fractions included) — added hypotheses: (1) the admission of the
+   magnitude 1<<63 plays no role in the standard parser's run (lowering the admitted magnitude to 1<<63 - 1 leaves its
+   answer unchanged; this excludes exactly the finding above); (2) the copy's float -> int64 conversion of a fraction stays
+   in range (Go leaves an out-of-range conversion implementation-defined; the model flags it as PImplDefined; no input
+   reaching it is known and the correspondence run reports one if it occurs) —
    the copy accepts exactly what the standard parser accepts, with the same value *)
-Theorem duration_equiv_partial : forall s, no_dMy s -> no_dot s ->
+Theorem duration_equiv_partial : forall s, no_dMy s ->
+  std_parse_duration_b max_int64 s = std_parse_duration s ->
+  pyro_parse_duration s <> PImplDefined ->
+  pyro_parse_duration s = std_parse_duration s.
+Proof. exact duration_equiv_frac_lemma. Qed.
+Print Assumptions duration_equiv_partial.
+
+(* without a '.', hypothesis (2) is not needed *)
+Theorem duration_equiv_partial_nofraction : forall s, no_dMy s -> no_dot s ->
   std_parse_duration_b max_int64 s = std_parse_duration s ->
   pyro_parse_duration s = std_parse_duration s.
 Proof. exact duration_equiv_lemma. Qed.
-Print Assumptions duration_equiv_partial.
+Print Assumptions duration_equiv_partial_nofraction.
 
 Example duration_equiv_partial_nonvacuous :
+  let s := bs "-2h45m30.5s1.25ms" in
+  no_dMy s /\ std_parse_duration_b max_int64 s = std_parse_duration s /\ pyro_parse_duration s <> PImplDefined /\
+  std_parse_duration s = POk (-9930501250000).
+Proof. vm_compute. repeat split; try reflexivity; discriminate. Qed.
+
+Example duration_equiv_partial_nofraction_nonvacuous :
   let s := bs "-2h45m30s500ms" in
   no_dMy s /\ no_dot s /\ std_parse_duration_b max_int64 s = std_parse_duration s /\ std_parse_duration s = POk (-9930500000000).
 Proof. vm_compute. repeat split; reflexivity. Qed.
